@@ -47,7 +47,8 @@ def run_variant(prop, name, patch, baseline_rc):
         lines = [l for l in r.stdout.splitlines() if l.startswith(("VIOLATED", "UNDECIDED"))]
         if r.returncode == 2:
             return name, "error", (r.stdout + r.stderr)[-400:]
-        return name, ("fired" if r.returncode == 1 else "silent"), "; ".join(l[:200] for l in lines[:3])
+        rules = sorted({l.split()[1].rstrip(":") for l in lines if len(l.split()) > 1})
+        return name, ("fired" if r.returncode == 1 else "silent"), "rules " + ",".join(rules) + " | " + "; ".join(l[:200] for l in lines[:3])
     finally:
         shutil.rmtree(tmp, ignore_errors=True)
 
@@ -84,6 +85,13 @@ def main():
             print(f"QA-MISSED property={prop} variant={x['variant']} ({x['result']}) {x['detail']}")
     for n in noisy:
         print(f"QA-NOISY property={prop} variant={n}")
+    # which rules of the property were exercised by at least one variant (information about the corpus)
+    fired_rules = {}
+    for x in results["must_fire"]:
+        if x["result"] == "fired" and x["detail"].startswith("rules "):
+            for rl in x["detail"][6:].split(" | ")[0].split(","):
+                if rl:
+                    fired_rules.setdefault(rl, []).append(x["variant"])
     ev = os.path.join(HERE, "evidence", prop + ".json")
     try:
         d = json.load(open(ev))
@@ -93,6 +101,10 @@ def main():
         d["coverage"]["mutants_killed"] = killed
         d["coverage"]["mutants_skipped"] = skipped
         d["coverage"]["mutants_missed"] = missed
+        own = [r["rule"] for r in d["coverage"].get("rules", [])]
+        d["coverage"]["qa_rules_exercised"] = {r: len(fired_rules.get(r, [])) for r in own}
+        never = [r for r in own if r not in fired_rules]
+        print(f"QA {prop}: rules with a firing variant {len(own)-len(never)}/{len(own)}; without: {never}")
         d["wall_s"] = time.time() - t0
         json.dump(d, open(ev, "w"), indent=1)
     except Exception as e:  # evidence must exist; the binary wrote it
